@@ -1,3 +1,4 @@
+pub mod gen_bmca;
 pub mod gen_inst;
 pub mod inst;
 pub mod time;
